@@ -58,7 +58,7 @@ class PieceLenCheck:
             "int() reads them or rejected with the piece-length error",
             "end-to-end creates only for accepted values <= 2^24 (larger "
             "values would allocate a piece-sized buffer)",
-            "get_piece_length: every size <= 2^20 (quick) / 2^22 (thorough) "
+            "get_piece_length: every size <= 2^22 (quick) / 2^26 (thorough) "
             "and c*2^e+d families up to 2^60; monotone along the sorted "
             "enumerated domain",
         ]
@@ -84,8 +84,8 @@ class PieceLenCheck:
         gs.append({"kind": "e2e", "route": "lib", "seed": seed})
         gs.append({"kind": "e2e", "route": "cli", "seed": seed})
         gs.append({"kind": "e2e", "route": "config", "seed": seed})
-        top2 = 1 << (20 if tier == "quick" else 22)
-        step2 = 1 << 18
+        top2 = 1 << (22 if tier == "quick" else 26)
+        step2 = 1 << 19
         for lo in range(0, top2, step2):
             gs.append({"kind": "auto-ints", "lo": lo, "hi": lo + step2 + 1})
         gs.append({"kind": "auto-fam"})
